@@ -21,6 +21,8 @@
 #include <sys/time.h>
 #include <sys/resource.h>
 #include <sys/mman.h>
+#include <sys/mount.h>
+#include <sched.h>
 #include <string>
 #include <vector>
 
@@ -50,6 +52,7 @@ struct ChildShared
   int main_rc;
   int helper_system_status[4];
   int mkdtemp_calls;
+  int private_tmp;
   long simm_allocs, simm_bytes;
   uint64_t simm_addr_hash;
 };
@@ -170,6 +173,14 @@ static void run_child(const JVal &spec)
   for (size_t i = 0; i < args.size(); ++i) argv.push_back(const_cast<char *>(args[i].c_str()));
   argv.push_back(0);
   atexit(child_atexit);
+  // --- private /tmp: the tools hard-code /tmp for their temporary files; give the run (and its helper / second party)
+  // a /tmp of its own so that runs executing in parallel on this machine cannot meet there
+  if (spec.num("private_tmp", 0))
+    {
+      bool ok = unshare(CLONE_NEWNS) == 0 && mount(0, "/", 0, MS_REC | MS_PRIVATE, 0) == 0
+		&& mount("tmpfs", "/tmp", "tmpfs", 0, "size=512m,mode=1777") == 0;
+      CS->private_tmp = ok ? 1 : -1;
+    }
   // --- SIM-M
   if (const JVal *m = spec.get("simm"))
     if (m->t == JVal::OBJ)
@@ -248,7 +259,7 @@ static void print_child_info(FILE *resf)
 {
   SfShared *S = simf_shared();
 #define printf(...) fprintf(resf, __VA_ARGS__)
-      printf(",\"tsan_reports\":%ld,\"mkdtemp_calls\":%d", CS->tsan_reports, CS->mkdtemp_calls);
+      printf(",\"tsan_reports\":%ld,\"mkdtemp_calls\":%d,\"private_tmp\":%d", CS->tsan_reports, CS->mkdtemp_calls, CS->private_tmp);
       if (S->active)
 	{
 	  printf(",\"simf\":{\"crashed\":%d,\"trapped\":%ld,\"passthrough\":%ld,\"io_hash\":\"%016llx\",\"io_events\":%ld,\"system_calls\":%d,\"bytes_at_system\":[%ld,%ld],\"objects\":[",
